@@ -71,6 +71,7 @@ package crl
 
 //@ func CRLRevocationChecker.updateCRLs
 //@   props C15 C13 C07 C08
+//@   ensures[C13,C15] update_mutex_released: unheld(&crlUpdateMutex)
 //@   ensures[C08,C13] whole_refreshes_are_serialised: called(Repository.UpdateCRLs#any) ==> after(Repository.UpdateCRLs#any, wheld(&crlUpdateMutex))
 //@   requires checkerOK(c) && norwlocks() && unheld(&crlUpdateMutex)
 //@   noglobals
